@@ -302,12 +302,14 @@ Merge == /\ Editable /\ Partnered(s)
 InitLibTags == { TagE("Alpha", "", {IL(Lib)}, "plain", FALSE),
                  TagE("Beta", "Alpha", {IL(Lib), <<"relatedTag", "Sensory-event">>}, "none", FALSE),
                  TagE("Gamma", "Event", {IL(Lib), <<"rooted", "Event">>}, "plain", FALSE) }
+\* the stand-alone standard schema of MODE "standard" is the partner slice by itself (suggestions pointing outside the slice dropped)
+StdTags == {[e EXCEPT !.attrs = {p \in @ : p[1] # "suggestedTag"}] : e \in BaseTags}
 Init == /\ edits = <<>>
         /\ s = IF MODE = "partnered"
                THEN [hdr |-> [library |-> <<Lib>>, withStandard |-> "8.3.0", unmerged |-> TRUE],
                      tags |-> BaseTags \cup InitLibTags, ucs |-> BaseUCs, units |-> BaseUnits, others |-> BaseOthers]
                ELSE [hdr |-> [library |-> <<>>, withStandard |-> "", unmerged |-> FALSE],
-                     tags |-> BaseTags, ucs |-> BaseUCs, units |-> BaseUnits, others |-> BaseOthers]
+                     tags |-> StdTags, ucs |-> BaseUCs, units |-> BaseUnits, others |-> BaseOthers]
 
 DoAddNode == \E n \in NewNames : \E p \in {""} \cup Names(s.tags) : AddNode(n, p)
 DoAddRooted == \E n \in NewNames : \E t \in Names(s.tags) : AddRooted(n, t)
